@@ -40,9 +40,17 @@ theorem sendCoins_ok {s s' : State} {ag : List Addr} {a b : Addr} {ids : List Sc
     hasFunds s.ledger a ids = true ∧ withdrawOk s ag a = true ∧ depositOk s ag a b = true ∧
     s' = { s with ledger := s.ledger.move a b (ones ids) } := by
   unfold sendCoins at h
-  by_cases h1 : hasFunds s.ledger a ids = true <;> by_cases h2 : withdrawOk s ag a = true <;>
-    by_cases h3 : depositOk s ag a b = true <;> simp [h1, h2, h3] at h
+  by_cases h1 : hasFunds s.ledger a ids = true <;> by_cases h0 : spendable s a ids = true <;>
+    by_cases h2 : withdrawOk s ag a = true <;>
+    by_cases h3 : depositOk s ag a b = true <;> simp [h1, h0, h2, h3] at h
   exact ⟨h1, h2, h3, h.symm⟩
+
+/-- a successful send takes only coins that are not on hold -/
+theorem sendCoins_spendable {s s' : State} {ag : List Addr} {a b : Addr} {ids : List ScopeId}
+    (h : sendCoins s ag a b ids = .ok s') : spendable s a ids = true := by
+  unfold sendCoins at h
+  by_cases h1 : hasFunds s.ledger a ids = true <;> by_cases h0 : spendable s a ids = true <;> simp [h1, h0] at h
+  exact h0
 
 theorem sendCoins_frame {s s' : State} {ag : List Addr} {a b : Addr} {ids : List ScopeId}
     (h : sendCoins s ag a b ids = .ok s') : Frame s s' := by
